@@ -56,6 +56,8 @@ type Profile struct {
 	HostileNames bool // identifier-hostile names
 	LongNames    bool
 
+	NoClient bool // the schema is only used with server-side plugins: client-only findings do not restrict it
+
 	// Avoid maps generator avoidance switches (turned on by open known findings) to the
 	// finding id; avoided draws are counted in Schema.Avoided.
 	Avoid map[string]string
@@ -953,7 +955,7 @@ func (g *gen) buildMethod(f *File, s *Service, m *Method, usedRoutes map[string]
 	for i := 0; i < nq; i++ {
 		k := pick(g, URLKinds, "querykind")
 		fl := &Field{Name: g.fieldName(rc.used, true), Number: g.nextNum(rc), Kind: k, Card: Singular}
-		if p.RepeatedQuery && g.oneIn(4, "repquery") && !g.avoid("query_repeated") {
+		if p.RepeatedQuery && g.oneIn(4, "repquery") && (p.NoClient || !g.avoid("query_repeated")) {
 			fl.Card = Repeated
 			g.tagf("query:repeated")
 		}
@@ -962,7 +964,7 @@ func (g *gen) buildMethod(f *File, s *Service, m *Method, usedRoutes map[string]
 			q.Name = pick(g, []string{"q", "page", "limit", "sort_by", "filter.name", "x-y", "Q"}, "qnamev") + fmt.Sprint(i)
 		}
 		q.Required = g.oneIn(4, "qreq")
-		if q.Required && bodyVerb && g.avoid("required_query_on_body_verb") {
+		if q.Required && bodyVerb && !p.NoClient && g.avoid("required_query_on_body_verb") {
 			q.Required = false
 		}
 		fl.EnsureAnn().Query = q
